@@ -65,6 +65,12 @@ def replay_case(modname, case):
     observe = bool(getattr(mod, "OBSERVE", False))
     spec, hist = case["spec"], case["history"]
     hist = [_tuplify(o) for o in hist]
+    if not hist:
+        try:
+            run_history(spec, [], observe)
+        except Exception as e:
+            return [{"rule": "setup_failed", "observed": rt.describe(e)}]
+        return []
     t = run_history(spec, hist[:-1], observe)
     op = hist[-1]
     try:
@@ -105,6 +111,12 @@ def search(ctx, kind, modname, spec, ops, depth, label="", time_cap=None, nontri
                 if status == "disabled":
                     disabled += 1
                     continue
+                if status == "harness" and not h:
+                    # the well-formed initial tree itself could not be built / funded
+                    v = dict(viols[0], rule="setup_failed", build=kind, module=modname, case={"spec": spec, "history": []}, expected="the initial tree can be set up, funded and updated")
+                    ctx.violation(v)
+                    ctx.add(states=1, transitions=1)
+                    return {"label": label, "setup_failed": True}
                 if status == "harness":
                     raise RuntimeError("replay of a reached prefix diverged: %r %r %r" % (h, op, viols))
                 transitions += 1
@@ -139,6 +151,9 @@ def search(ctx, kind, modname, spec, ops, depth, label="", time_cap=None, nontri
     ctx.nontrivial_count += len(seen)
     info = {"label": label, "build": kind, "depth_completed": completed, "depth_bound": depth, "ops": len(ops), "states": states, "transitions": transitions, "refused": refused, "disabled": disabled, "frontier_sizes": levels, "violations": nviol, "wall_s": round(time.time() - t0, 1)}
     ctx.extra.setdefault("searches", []).append(info)
+    if transitions >= 100 and refused > 0.4 * transitions:
+        # a wholesale flip of ordinary operations into guard errors must not pass as "refused"
+        ctx.violation({"rule": "too_many_refusals", "build": kind, "observed": "%d of %d transitions of %s were refused by guards" % (refused, transitions, label), "expected": "<= 40% (unchanged tree: far below)"})
     if frontier:
         ctx.sample({"search": label, "history": frontier[len(frontier) // 2]})
     return info
